@@ -10,7 +10,10 @@ import shutil
 import subprocess
 import sys
 import tempfile
+import threading
 import time
+
+_BUILD_LOCK = threading.RLock()
 
 VERIF = os.path.dirname(os.path.dirname(os.path.dirname(os.path.abspath(__file__))))
 REPO = os.environ.get("VERIF_REPO", "/repo")
@@ -87,7 +90,8 @@ def repo_hash():
 def _compile(src, obj, flags):
     if os.path.exists(obj):
         return
-    tmp = obj + ".tmp%d" % os.getpid()
+    import threading
+    tmp = obj + ".tmp%d.%d" % (os.getpid(), threading.get_ident())
     cmd = ["g++", "-std=gnu++20", "-D" + GUARD, "-I" + os.path.join(REPO, "src"), "-I" + HARNESS,
            "-Wno-error", "-w"] + flags + ["-c", src, "-o", tmp]
     p = subprocess.run(cmd, stdout=subprocess.PIPE, stderr=subprocess.PIPE)
@@ -133,6 +137,11 @@ def _gc_build(keep=6):
 
 def link(name, harness_srcs, variant="plain", with_cli=False, libs=(), extra_defs=(), repo_srcs_override=None):
     """Build harness executable `name` from harness sources + repo objects. Returns its path."""
+    with _BUILD_LOCK:
+        return _link(name, harness_srcs, variant, with_cli, libs, extra_defs, repo_srcs_override)
+
+
+def _link(name, harness_srcs, variant="plain", with_cli=False, libs=(), extra_defs=(), repo_srcs_override=None):
     objs, key = build_objs(variant, with_cli, extra_defs)
     if repo_srcs_override is not None:
         objs = [o for o in objs if any(o.endswith(s.replace("/", "_") + ".o") for s in repo_srcs_override)]
@@ -180,6 +189,11 @@ def link_standalone(name, harness_srcs, variant="plain", defs=(), libs=()):
 
 def build_cli(variant="plain"):
     """The real `bloch` CLI binary from the current tree with hooks on."""
+    with _BUILD_LOCK:
+        return _build_cli(variant)
+
+
+def _build_cli(variant="plain"):
     main = os.path.join(REPO, "src", "main.cpp")
     objs, key = build_objs(variant, with_cli=True)
     d = os.path.join(BUILD, "bin", sha(key, "cli", variant))
